@@ -98,6 +98,7 @@ def wbrun_cell(desc, key):
 def make_case(seed, i, tier='quick'):
     rng = random.Random('fvmon/C15/%s/%s' % (seed, i))
     desc = gw.gen(rng, whole_col=(tier != 'quick' and i % 4 == 0))
+    readers = gw.add_adjacent_arrays(rng, desc) if i % 3 == 1 else []
     ev = rw.Evaluator(desc)
     forms = wbrun.formula_cells(desc)
     anchors = [k for k in wbrun.formula_cells(desc, with_arrays=True) if k not in forms]
@@ -124,6 +125,9 @@ def make_case(seed, i, tier='quick'):
                 b = rng.randrange(len(desc['books']))
                 s = rng.randrange(len(desc['books'][b]['sheets']))
                 specs.append(['blank', [b, s, rng.randint(1, 3), rng.randint(9, 11)]])
+        if readers and j < 3:
+            # a rectangle over two adjacent array formulas without their anchors
+            specs = [['cell', list(readers[j % 2])]] + specs[:j]
         outsets.append(specs)
     return {'kind': 'partial', 'id': i, 'desc': desc, 'outsets': outsets,
             'form': 'abspath' if i % 5 == 4 else 'basedir'}
